@@ -31,7 +31,7 @@ Fixpoint canon_chain (p : prevk) (r : list ev) : bool :=
    expression to nothing; ExprParameter.kind holds the ParameterKind member itself *)
 Fixpoint canon (e : ev) : bool :=
   match e with
-  | VNone | VBool _ | VStr _ => true
+  | VNone | VBool _ | VStr _ | VInt _ => true
   | VEnum _ => false
   | VList l => forallb canon l
   | VName _ p => link_eqb p LScope
